@@ -796,6 +796,11 @@ def _fscan_reqs(ctx):
     for b in G.FSCAN_CORPUS:
         for pfx in prefixes[:3]:
             add(corpus, b, pfx)
+        if any(ord(c) > 127 for c in b):
+            # doubled braces / escapes in front of an error next to a multi-byte character: a position that drifts by
+            # one byte lands inside the character (seed C03-4)
+            for lead in ("{{", "}}", "{{}}", "a{{b}}", "\\x41", "\\{", "{y}", "{y:{z}}", "{y=}"):
+                add(corpus, lead + b, "f")
     for n in (10, 100, 1000):
         for unit in ("{x}", "{x:{y}}", "{x!r:>{w}}", "{{", "{x=}", "\\x41", "{x['k']}", "é{é}"):
             add(corpus, unit * n, "f")
